@@ -9,6 +9,7 @@ import (
 	"encoding/hex"
 	"fmt"
 	"sort"
+	"strings"
 
 	"github.com/ontio/ontology/common"
 	gov "github.com/ontio/ontology/smartcontract/service/native/governance"
@@ -136,6 +137,12 @@ type snap struct {
 	ongGov uint64
 }
 
+// canon is the reference model's identity of a peer: the decoded key bytes, written as lower-case hex. Every record
+// the contract keys by the decoded bytes (authorize info, attributes, promise, penalty, black list) is indexed by it
+// here, whatever spelling the record itself carries; pool entries keep the spelling the contract stored (pool
+// look-ups are by string) and are compared with the other records through canon.
+func canon(pub string) string { return strings.ToLower(pub) }
+
 func (s *snap) activeCount() int {
 	n := 0
 	for _, p := range s.pool {
@@ -239,7 +246,7 @@ func (h *hist) readSnap() *snap {
 	// authorize infos
 	h.scan(string(gov.AUTHORIZE_INFO_POOL), func(rest, v []byte) {
 		r := &rd{b: v}
-		a := authInfo{pub: r.str(), addr: r.addr(), cons: r.u64(), cand: r.u64(), newp: r.u64(), wcons: r.u64(), wcand: r.u64(), unfreeze: r.u64()}
+		a := authInfo{pub: canon(r.str()), addr: r.addr(), cons: r.u64(), cand: r.u64(), newp: r.u64(), wcons: r.u64(), wcand: r.u64(), unfreeze: r.u64()}
 		if !r.end() {
 			h.badRec("authorizeInfo", v)
 		}
@@ -264,7 +271,7 @@ func (h *hist) readSnap() *snap {
 	// penalty stakes (C11)
 	h.scan(gov.PENALTY_STAKE, func(rest, v []byte) {
 		r := &rd{b: v}
-		pub, ip, ap := r.str(), r.u64(), r.u64()
+		pub, ip, ap := canon(r.str()), r.u64(), r.u64()
 		r.u32()
 		r.u64()
 		if !r.end() {
@@ -310,13 +317,13 @@ func (h *hist) readSnap() *snap {
 	h.scan(gov.PROMISE_POS, func(rest, v []byte) {
 		pp := new(gov.PromisePos)
 		if err := pp.Deserialization(common.NewZeroCopySource(v)); err == nil {
-			s.promise[pp.PeerPubkey] = pp.PromisePos
+			s.promise[canon(pp.PeerPubkey)] = pp.PromisePos
 		}
 	})
 	h.scan(gov.PEER_ATTRIBUTES, func(rest, v []byte) {
 		pa := new(gov.PeerAttributes)
 		if err := pa.Deserialization(common.NewZeroCopySource(v)); err == nil {
-			s.attrs[pa.PeerPubkey] = pa
+			s.attrs[canon(pa.PeerPubkey)] = pa
 		}
 	})
 	s.gp = new(gov.GlobalParam)
@@ -350,7 +357,7 @@ func (h *hist) readSnap() *snap {
 }
 
 func (s *snap) attr(pub string) *gov.PeerAttributes {
-	if a, ok := s.attrs[pub]; ok {
+	if a, ok := s.attrs[canon(pub)]; ok {
 		return a
 	}
 	return &gov.PeerAttributes{PeerPubkey: pub, T2PeerCost: 100, T1PeerCost: 100, TPeerCost: 100}
@@ -358,7 +365,7 @@ func (s *snap) attr(pub string) *gov.PeerAttributes {
 
 func (s *snap) isBlack(pub string) bool {
 	for _, b := range s.black {
-		if b == pub {
+		if b == canon(pub) {
 			return true
 		}
 	}
